@@ -212,6 +212,11 @@ theorem cond_accept_sound_partial (sc : Bool) (c l r : Operand) (t : Ty) (hl : c
   cond_sound sc c l r t hl hx h
 
 example : condType true { ty := .struct 0 } { ty := Ty.int } { ty := Ty.int } = none := by decide   -- fix 8620260
+/-- `(1 ? x : y)` is not an lvalue although the condition is constant and both arms are (fix 7cf2154):
+`(1 ? x : y) = 3`, `&(0 ? x : y)`, `(1 ? x : y)++` are rejected by `assign_accept_sound` /
+`unary_accept_sound` -/
+example : (condOperand true { ty := Ty.int, constval := some true } { ty := Ty.int, lvalue := true }
+    { ty := Ty.int, lvalue := true }).map (·.lvalue) = some false := by decide
 example : condType true { ty := Ty.int } { ty := .ptr {} Ty.int } { ty := .ptr {} (.arith (.basic .double)) } = none := by
   decide
 
